@@ -215,8 +215,8 @@ def template_prepare(tmp, variant):
         extra = ''.join('%s /optional/%s\n' % (k, k) for k in variant.get('extra_keys', []))
         f.write(extra + text)
     dump = os.path.join(d, 'dump.pkl')
-    if os.path.exists(dump):
-        os.remove(dump)
+    if os.path.exists(dump) and not variant.get('keep_dump'):
+        os.remove(dump)          # (keep_dump: the intermediate file an earlier call of a sequence has written is used again)
     if variant.get('dump'):
         with open(dump, 'wb') as f:
             pickle.dump({'newflux': np.ones((3, 8)), 'newivar': np.ones((3, 8)), 'newloglam': 3.5 + 1e-4 * np.arange(8)}, f)
